@@ -69,6 +69,39 @@ func (e *Env) returnDiscipline(k *scoreKit) {
 	for _, f := range fns {
 		allowed[f] = "score function " + fname(f)
 	}
+	// gridValued: every return of an in-package helper is itself on the tenth grid
+	var gridValued func(g *types.Func, depth int) bool
+	gridTerm := func(r *ir.Term, f *types.Func, depth int) bool {
+		switch {
+		case r.Op == ir.OConst && isZeroConst(r):
+			return true
+		case r.Op == ir.OCall && allowed[r.Obj] != "":
+			return r.Obj != types.Object(f)
+		case r.Op == ir.OBin && r.Str == "/" && k.integral(r.Args[0]) && isTen(r.Args[1]):
+			return true
+		case r.Op == ir.OCall:
+			if g, ok := r.Obj.(*types.Func); ok && g.Pkg() == k.pkg && !g.Exported() && depth < 3 {
+				return gridValued(g, depth+1)
+			}
+		}
+		return false
+	}
+	gridValued = func(g *types.Func, depth int) bool {
+		sf := e.P.SSAFunc(g)
+		if sf == nil || len(sf.Blocks) == 0 {
+			return false
+		}
+		ls, err := ir.Leaves(sf, ir.LeafOptions{})
+		if err != nil || len(ls) == 0 {
+			return false
+		}
+		for _, lf := range ls {
+			if len(lf.Ret) != 1 || !gridTerm(lf.Ret[0], g, depth) {
+				return false
+			}
+		}
+		return true
+	}
 	for _, f := range fns {
 		sf := e.P.SSAFunc(f)
 		leaves, err := ir.Leaves(sf, ir.LeafOptions{})
@@ -85,12 +118,17 @@ func (e *Env) returnDiscipline(k *scoreKit) {
 			n++
 			r := lf.Ret[0]
 			switch {
+			case gridTerm(r, f, 0):
 			case r.Op == ir.OConst && isZeroConst(r):
 			case r.Op == ir.OCall && allowed[r.Obj] != "":
 				if r.Obj == types.Object(f) {
 					ok = false
 					c.Fail("return-discipline", fname(f), e.P.Pos(lf.Pos), "recursive score call")
 				}
+			case r.Op == ir.OBin && r.Str == "/" && k.integral(r.Args[0]) && isTen(r.Args[1]):
+				// an inline integer/10 is itself a tenth
+			case r.Op == ir.OParam && r.N > 0 && !f.Exported() && e.paramIsScore(k, f, r.N, allowed):
+				// an unexported helper handing back a score it was given
 			default:
 				ok = false
 				c.Fail("return-discipline", fname(f), e.P.Pos(lf.Pos), "a return value is neither 0, nor the result of a tenth-producing rounding helper, nor a lower-level score: "+clip(r.Pretty()))
@@ -482,3 +520,36 @@ func (e *Env) allWeightsIn(T types.Type, lo, hi float64) bool {
 }
 
 var _ = ssa.BuilderMode(0)
+
+func isTen(t *ir.Term) bool {
+	f, ok := floatConst(t)
+	return ok && f == 10
+}
+
+// paramIsScore: at every call of the unexported helper h inside the score
+// functions, argument i is 0, a rounding-helper result or another score.
+func (e *Env) paramIsScore(k *scoreKit, h *types.Func, i int, allowed map[types.Object]string) bool {
+	n := 0
+	okAll := true
+	for _, f := range k.scoreFuncs() {
+		leaves, err := ir.Leaves(e.P.SSAFunc(f), ir.LeafOptions{})
+		if err != nil {
+			return false
+		}
+		for _, lf := range leaves {
+			for _, t := range append(append([]*ir.Term{}, lf.Guards...), lf.Ret...) {
+				ir.Walk(t, func(x *ir.Term) bool {
+					if x.Op == ir.OCall && x.Obj == types.Object(h) && i < len(x.Args) {
+						n++
+						a := x.Args[i]
+						if !(isZeroConst(a) || (a.Op == ir.OCall && allowed[a.Obj] != "")) {
+							okAll = false
+						}
+					}
+					return true
+				})
+			}
+		}
+	}
+	return n > 0 && okAll
+}
